@@ -24,11 +24,8 @@
    association list per directory / file, in the order given); generated-code
    splicing of names (F21, repaired by daee07e).  Strings are ASCII for clean/upper/lower.
 
-   Faithful to the current tree, including the open defect F37: with a non-empty
-   prefix, a field mapped to SEVERAL candidate variables looks up the single
-   name  prefix ++ repr(tuple)  (wizard.py:290 formats the whole tuple with
-   "%s%s" % (_env_prefix, names)).  `tuple_repr` is exact for names without quote, backslash or
-   non-printable characters.
+   With a non-empty prefix, a field mapped to SEVERAL candidate variables looks up
+   each prefixed candidate in order (F37, repaired by 466ac1d).
    No proofs in this file. *)
 From DW Require Export PyStr StrConv T_LetterCase.
 
@@ -257,9 +254,6 @@ Definition eff_dotenv (c : cls) (a : args) : list env :=
   | EFFiles fs => fs
   end.
 
-Definition quote1 (s : pstr) : pstr := S "'" ++ s ++ S "'".
-Definition tuple_repr (vs : list pstr) : pstr := S "(" ++ join (S ", ") (map quote1 vs) ++ S ")".
-
 Definition is_nil {A} (l : list A) : bool := match l with [] => true | _ => false end.
 
 Inductive src :=
@@ -276,8 +270,8 @@ Definition src_of (f : field) (r : lres) : src :=
   | KeyErr _ => SCrash
   end.
 
-(* wizard.py:283-310 for one field.  `_var_name = f"{_env_prefix}{var_name}" if
-   _env_prefix else var_name`; an empty str / tuple mapping is falsy and falls
+(* wizard.py:283-312 for one field.  `_var_name` is var_name when there is no prefix,
+   else prefix + name, resp. the tuple of prefix + each candidate name; an empty str / tuple mapping is falsy and falls
    back to the field name. *)
 Definition field_lookup (st : state) (p : prio) (prefix : pstr) (f : field) : state * lres :=
   match f_explicit f with
@@ -287,7 +281,7 @@ Definition field_lookup (st : state) (p : prio) (prefix : pstr) (f : field) : st
   | ExTuple vs =>
       if is_nil vs then get_env p st (prefix ++ f_name f)
       else if is_nil prefix then (st, lookup_exact_seq st vs)
-      else (st, lookup_exact_str st (prefix ++ tuple_repr vs))          (* F37 *)
+      else (st, lookup_exact_seq st (map (app prefix) vs))
   | ExNone => get_env p st (prefix ++ f_name f)
   end.
 
